@@ -7,7 +7,7 @@ from concurrent.futures import ThreadPoolExecutor
 cenv = dict(os.environ, PATH="/opt/veriftools/go1.26.8/bin:" + os.environ["PATH"], GOTOOLCHAIN="local", GOFLAGS="-mod=mod", GOPROXY="off", GOWORK="off")
 BIN = os.environ.get("VC_BIN", "/verif/bin/vuegocheck")
 def sh(cmd, cwd=None, env=None):
-    p = subprocess.run(["bash", "-c", cmd], cwd=cwd, env=env or os.environ, stdout=subprocess.PIPE, stderr=subprocess.STDOUT, text=True)
+    p = subprocess.run(["bash", "-c", cmd], cwd=cwd, env=env or os.environ, stdout=subprocess.PIPE, stderr=subprocess.STDOUT, text=True, errors="replace")
     return p.returncode, p.stdout
 args = sys.argv[1:]; J = 6; RUNS = 3
 while args[:1] and args[0] in ("-j", "-n"):
